@@ -250,6 +250,15 @@ func classifyDoErr(err error) string {
 }
 
 func doScript(sc *simClient, s *respScript, h c03Handlers, segs []int, perPacketGap time.Duration) c03Run {
+	return doScriptX(sc, s, h, segs, perPacketGap, false)
+}
+
+// doScriptManual runs the query; the caller feeds the stream itself
+func doScriptManual(sc *simClient, s *respScript, h c03Handlers) c03Run {
+	return doScriptX(sc, s, h, nil, 0, true)
+}
+
+func doScriptX(sc *simClient, s *respScript, h c03Handlers, segs []int, perPacketGap time.Duration, manualFeed bool) c03Run {
 	var run c03Run
 	calls := 0
 	fail := func() error {
@@ -328,7 +337,8 @@ func doScript(sc *simClient, s *respScript, h c03Handlers, segs []int, perPacket
 	sc.conn.mu.Lock()
 	sc.conn.segs = append([]int(nil), segs...)
 	sc.conn.mu.Unlock()
-	if perPacketGap > 0 {
+	if manualFeed {
+	} else if perPacketGap > 0 {
 		go func() {
 			for _, p := range s.pkts {
 				time.Sleep(perPacketGap)
